@@ -17,6 +17,12 @@ func (cr *crashRun) kf02aWindow(op, k int) bool {
 
 // checkNoPhantoms is C02's relation for the dump d (phase A and B merged by the caller).
 func checkNoPhantoms(cr *crashRun, k int, dumps []*wl.Dump, rec *hx.Rec) error {
+	return checkNoPhantomsMax(cr, k, dumps, rec, 2)
+}
+
+// checkNoPhantomsMax: maxDup is the multiplicity KF-02a may produce (2 after one
+// restart, 3 when the restart itself was interrupted and repeated).
+func checkNoPhantomsMax(cr *crashRun, k int, dumps []*wl.Dump, rec *hx.Rec, maxDup int) error {
 	rows := historyRows(cr.H)
 	byTag := map[int64]wrRow{}
 	for _, w := range rows {
@@ -73,7 +79,7 @@ func checkNoPhantoms(cr *crashRun, k int, dumps []*wl.Dump, rec *hx.Rec) error {
 		if n <= 1 {
 			continue
 		}
-		if n == 2 && cr.kf02aWindow(w.op, k) && hx.KFOpen("KF-02a") {
+		if n <= maxDup && cr.kf02aWindow(w.op, k) && hx.KFOpen("KF-02a") {
 			rec.Exclude("KF-02a")
 			rec.KF("KF-02a", "variable-length records duplicated by WAL replay")
 			continue
